@@ -72,6 +72,40 @@ func addrKinds() []addrKind {
 
 				return err
 			}},
+		// the setter taken as a method value from the server's long-lived address variable before the address of this
+		// response is filled in (`add := addr.AddTo`, `defer addr.AddTo(m)`): it adds what the variable holds when it runs
+		{"MAPPED-ADDRESS (setter bound before the fields were set)", 0x0001, false,
+			func(m *stun.Message, ip net.IP, port int, _ uint16) error {
+				a := stun.MappedAddress{IP: net.IP{9, 9, 9, 9}, Port: 9}
+				add := a.AddTo
+				a.IP, a.Port = ip, port
+
+				return add(m)
+			},
+			func(m *stun.Message, dst *net.IP, port *int, _ uint16) error {
+				a := stun.MappedAddress{IP: *dst}
+				get := a.GetFrom
+				err := get(m)
+				*dst, *port = a.IP, a.Port
+
+				return err
+			}},
+		{"MappedAddress.AddToAs (setter bound before the fields were set)", 0, false,
+			func(m *stun.Message, ip net.IP, port int, t uint16) error {
+				a := stun.MappedAddress{IP: net.IP{9, 9, 9, 9, 9, 9, 9, 9, 9, 9, 9, 9, 9, 9, 9, 9}, Port: 9}
+				add := a.AddToAs
+				a.IP, a.Port = ip, port
+
+				return add(m, stun.AttrType(t))
+			},
+			func(m *stun.Message, dst *net.IP, port *int, t uint16) error {
+				a := stun.MappedAddress{IP: *dst}
+				get := a.GetFromAs
+				err := get(m, stun.AttrType(t))
+				*dst, *port = a.IP, a.Port
+
+				return err
+			}},
 		{"ALTERNATE-SERVER", 0x8023, false,
 			func(m *stun.Message, ip net.IP, port int, _ uint16) error {
 				return (&stun.AlternateServer{IP: ip, Port: port}).AddTo(m)
